@@ -233,6 +233,11 @@ class ModGen:
     def g_option(self, depth, ctx):
         rng = self.rng
         args = [rand_ident(rng), rand_quoted(rng) if rng.random() < 0.8 else rand_arg(rng)]
+        if rng.random() < 0.15:
+            # a help text much longer than a line (quoted, single line)
+            words = [rng.choice(["Enable", "the", "optional", "component", "when", "building", "documentation", "for",
+                                 "every", "target", "of", "this", "project", "x", "and", "tests"]) for _ in range(rng.randint(14, 40))]
+            args[1] = '"' + " ".join(words) + '"'
         if rng.random() < 0.5:
             args.append(rng.choice(["ON", "OFF", "TRUE", "${d}", rand_arg(rng)]))
         if rng.random() < 0.05:
